@@ -46,7 +46,9 @@ func raceLogPath() string {
 	return fmt.Sprintf("%s.%d", *fRaceLog, os.Getpid())
 }
 
-var reFrame = regexp.MustCompile(`(?m)^  (\S+)\(\)\n\s+(\S+?):(\d+)`)
+// a frame is "  <function>()" followed by "      <file>:<line> +0x..": function
+// names of generic instantiations contain spaces
+var reFrame = regexp.MustCompile(`(?m)^  (.+)\(\)\n\s+(\S+?):(\d+)`)
 
 // firstRepoFrame returns the function of the first frame whose file is under
 // /repo/ and whether it is library code.
